@@ -24,7 +24,7 @@ SPEC = {
     "min_counts": {"quick": {"evaluations": 150, "kernel_runs": 4000, "leaf_bodies": 20000, "tiled_runs": 1000,
                              "lf_runs": 1000, "uformat_runs": 300, "estimated_shape_runs": 300, "div_tiled_runs": 500,
                              "float_value_runs": 500, "lf_three_on_one_rank_runs": 200,
-                             "right_nested_runs": 300, "long_rank_runs": 500}},
+                             "right_nested_runs": 300, "long_rank_runs": 500, "tiny_value_runs": 200}},
     "assumptions": [
         "integer payloads, leaf default 0 (the idiom's zero-product filter is defined for 0)",
         "each index variable is tiled at most once (two-level tilings of one rank are not generated); no halos",
@@ -43,11 +43,17 @@ def generate(rng, tier, shard, nshards, mon):
         vs = kernels.variables(spec)
         if rng.random() < 0.2:
             # non-integer values (dyadic rationals: every sum and product is exact in binary floating point)
-            sc = rng.choice([0.5, 0.25, 1.5])
+            sc = rng.choice([0.5, 0.25, 1.5, 2.0 ** -40])
 
             def scale(x):
                 return [scale(y) for y in x] if isinstance(x, list) else x * sc
-            spec["vals"] = {k: scale(v) for k, v in spec["vals"].items()}
+            if sc < 1e-6:
+                # one operand with tiny (but non-zero) magnitudes, the others as they are: no value may be taken for zero
+                k0 = rng.choice(sorted(spec["vals"]))
+                spec["vals"][k0] = scale(spec["vals"][k0])
+                spec["tiny_values"] = True
+            else:
+                spec["vals"] = {k: scale(v) for k, v in spec["vals"].items()}
             spec["float_values"] = True
         r = rng.random()
         if r < 0.2:
@@ -128,6 +134,8 @@ def run_case(case, mon):
                         mon.count("right_nested_runs")
                     if max(base["ext"].values()) > 16:
                         mon.count("long_rank_runs")
+                    if base.get("tiny_values"):
+                        mon.count("tiny_value_runs")
                     if base.get("float_values"):
                         mon.count("float_value_runs")
                     if style == "leader-follower" and max(len([n for n, idx in base["ops"] if v in idx]) for v in kernels.variables(base)) >= 3:
